@@ -325,7 +325,7 @@ def case_refusal(ctx, index, rng: random.Random):
 
     rec = ctx.rec
     rec.mon("C17.differential")
-    kind = rng.choice(["pd_nonnumeric", "pl_nonnumeric", "pl_null", "df_to_h1", "series_to_h", "ragged", "scalar", "pl_df_to_h1", "weights_shape", "dim_mismatch",
+    kind = rng.choice(["pd_nonnumeric", "pl_nonnumeric", "pl_null", "df_to_h1", "series_to_h", "ragged", "scalar", "pl_df_to_h1", "weights_shape", "dim_mismatch", "dates_in_objects",
                        "pd_df_dim_mismatch", "pl_df_dim_mismatch", "h3_two_columns", "pd_df_nonnumeric", "pl_series_to_h", "weights_pl_df", "weights_pd_df",
                        "pl_weights_null", "pl_df_null", "pl_df_nonnumeric_selected", "list_of_numeric_strings", "array_of_strings", "datetime_array", "timedelta_list",
                        "nd_strings"])
@@ -349,6 +349,18 @@ def case_refusal(ctx, index, rng: random.Random):
                 physt.h1(3.5, 2)
             elif kind == "pl_df_to_h1":
                 physt.h1(pl.DataFrame({"a": [1.0, 2.0], "b": [2.0, 3.0]}), 2)
+            elif kind == "dates_in_objects":
+                # dates / time spans are not numbers, whatever the container they arrive in (a list with a None in it becomes an object array)
+                d_ = [np.datetime64("2020-01-01"), np.datetime64("2020-02-01"), np.datetime64("2020-03-05")]
+                which_ = rng.randrange(4)
+                if which_ == 0:
+                    physt.h1(d_ + [None], 3)
+                elif which_ == 1:
+                    physt.h1(np.array(d_, dtype=object), 3)
+                elif which_ == 2:
+                    physt.h1(np.array([np.timedelta64(3, "D"), np.timedelta64(5, "D"), None], dtype=object), 2)
+                else:
+                    physt.h(np.array([[d_[0], 1.0], [d_[1], 2.0], [d_[2], 3.0]], dtype=object), 2)
             elif kind == "weights_shape":
                 x6 = np.array([0.5, 1.5, 2.5, 3.5, 0.6, 1.6])
                 which_ = rng.randrange(7)
@@ -463,7 +475,13 @@ def case_dask(ctx, index, rng: random.Random):
         with warnings.catch_warnings():
             warnings.simplefilter("ignore")
             with dask.config.set(scheduler="threads"):
-                if d == 1:
+                if d == 1 and n >= 6 and n % 2 == 0 and rng.random() < 0.25:
+                    # the 1D facade takes arrays of more dimensions as well: a chunk grid with a remainder block on either axis
+                    tbl = rows[:, 0].reshape(2, n // 2) if rng.random() < 0.5 else rows[:, 0].reshape(n // 2, 2)
+                    ck = (1, max(1, tbl.shape[1] - 1)) if tbl.shape[0] == 2 else (max(1, tbl.shape[0] - 1), 1)
+                    got = pdask.h1(da.from_array(tbl, chunks=ck), spec, **spec_kw1, dask_method=rng.choice(["threaded", None]))
+                    desc["table"] = [list(tbl.shape), list(ck)]
+                elif d == 1:
                     got = pdask.h1(da.from_array(rows[:, 0], chunks=chunks), spec, **spec_kw1, dask_method=rng.choice(["threaded", None]))
                 else:
                     form = rng.choice(["dd", "dd", "h2", "columns"] if d == 2 else ["dd", "h3", "columns"])
